@@ -146,7 +146,7 @@ func (e *Env) sqlSpaces(thorough bool) []*Space {
 		)
 	}
 	sqlparser.SetDefaultDialect(e.sql.dialects["mysql"])
-	a := alphabet{Name: "sql", Tok: toks(`'`, `"`, "`", `\`, "(", ")", "/*", "*/", "--", "#", "$", "$1", "E'", "0x", "x'", ":", "?", ";", "\x00", "\x80",
+	a := alphabet{Name: "sql", Tok: toks(`'`, `"`, "`", `\`, "(", ")", "/*", "/*!", "*/", "--", "#", "$", "$1", "E'", "0x", "x'", ":", "?", ";", "\x00", "\x80",
 		"select ", "from ", "where ", "insert ", "values ", "union ", "t", "1", ",", "=", " ")}
 	if !thorough {
 		return e.sigma("sql", "sql", a, 4, decs, nil, nil)
